@@ -493,10 +493,39 @@ func (C11) Run(t *testing.T, scn any) *sim.Outcome {
 		if err != nil {
 			out.Violate("unreadable-manifest", "unreadable-manifest:"+w.Sys, "the written manifest cannot be read back: %v; %s", err, ctx)
 		} else {
-			r.checkApplied(diskChanges(w, before, after, obs.Res.Patches))
+			// Two reported updates of one artifact with different targets (declared twice, e.g.
+			// dependencies 2.0 -> 2.0.0.1 and dependencyManagement 2.1.1 -> 2.1.2): the pom.xml
+			// writer files both under the first declaration and applies them in Go map order,
+			// so what is on disk for that artifact differs from run to run.  The statement does
+			// not fix the outcome there; skipping keeps a run a pure function of its scenario.
+			targets := map[string]map[string]bool{}
+			for _, p := range obs.Res.Patches {
+				for _, u := range p.PackageUpdates {
+					if targets[u.Name] == nil {
+						targets[u.Name] = map[string]bool{}
+					}
+					targets[u.Name][u.VersionTo] = true
+				}
+			}
+			var changes []change
+			for _, c := range diskChanges(w, before, after, obs.Res.Patches) {
+				if len(targets[c.Name]) > 1 {
+					out.Count("disk_change_of_ambiguously_targeted_artifact_skipped", 1)
+					continue
+				}
+				changes = append(changes, c)
+			}
+			r.checkApplied(changes)
 		}
 	}
 	out.Nontrivial = checked > 0
+	if os.Getenv("REMED_TRACE") != "" {
+		fmt.Fprintf(os.Stderr, "REMED_TRACE %s %v violations=%d\n", sim.FP(sc), out.Counters, len(out.Violations))
+		if os.Getenv("REMED_TRACE") == sim.FP(sc) {
+			b, _ := json.Marshal(sc)
+			fmt.Fprintf(os.Stderr, "REMED_SCENARIO %s\n", b)
+		}
+	}
 	out.Sample = map[string]any{"world": ctx, "sched": sc.Sched, "faults": sc.Faults, "applied": patchesString(obs.Res.Patches), "updates_checked": checked}
 	return out
 }
